@@ -871,6 +871,7 @@ def inline_stmts(callee, call, recv=None):
     k = next(_counter)
     ren = {}
     pre = []
+    cls_expr = None
     if skip:
         if isinstance(recv, ast.Name):
             ren[callee.args.args[0].arg] = recv.id
@@ -878,7 +879,12 @@ def inline_stmts(callee, call, recv=None):
             # a receiver reached through a pure attribute chain (`ode.jac.pattern()`): bound to a fresh local first
             fresh = f"_inl{k}_{callee.args.args[0].arg}"
             ren[callee.args.args[0].arg] = fresh
-            pre.append(ast.Assign(targets=[ast.Name(id=fresh, ctx=ast.Store())], value=copy.deepcopy(recv)))
+            if "classmethod" in decs:
+                # `cls` of a classmethod called on the class itself (`self.Record.from_rows(..)`): the class expression stays in place
+                # of `cls`, so that `cls(..)` reads as the constructor call it is
+                cls_expr = (fresh, copy.deepcopy(recv))
+            else:
+                pre.append(ast.Assign(targets=[ast.Name(id=fresh, ctx=ast.Store())], value=copy.deepcopy(recv)))
         else:
             return None
     body = copy.deepcopy(_callee_body(callee))
@@ -903,6 +909,10 @@ def inline_stmts(callee, call, recv=None):
     body = [_Rename(ren).visit(b) for b in body]
     if ret is not None:
         ret = _Rename(ren).visit(ret)
+    if cls_expr is not None:
+        body = [_Subst({cls_expr[0]: cls_expr[1]}).visit(b) for b in body]
+        if ret is not None:
+            ret = _Subst({cls_expr[0]: cls_expr[1]}).visit(ret)
     return pre + body, ret
 
 
